@@ -299,7 +299,7 @@ def run(ctx):
         if quick:
             runs.append(("fresh", "-seed %d -n 120 -nraw 300 -nall 24 -nbig 2 -exh 3 -nlife 40 -nnet 12 -nhand 16" % ctx.seed))
         else:
-            runs.append(("fresh", "-seed %d -n 1500 -nraw 6000 -nall 600 -nbig 6 -bigcuts full -exh 5 -nlife 600 -nnet 150 -nhand 300" % ctx.seed))
+            runs.append(("fresh", "-seed %d -n 1500 -nraw 6000 -nall 600 -nbig 6 -bigcuts full -exh 5 -nlife 600 -nnet 150 -nhand 300 -nburst 3" % ctx.seed))
 
     all_mism, all_fail, total, hist_all, samples, distinct = [], [], 0, {}, [], set()
     for sub, args in runs:
